@@ -52,7 +52,8 @@ PID = "C10"
 RULE = (
     "a case is one part built by a sequence of Part.add / remove / set_quarter_duration operations (space inplace-then-query: "
     "also use_musical_beat / use_notated_beat / set_musical_beat_per_ts and attribute assignments on the elements) in 1-4 phases; "
-    "after each phase all compared maps are queried at every integer timeline position in 9 argument forms; each "
+    "after each phase all compared maps are queried at every integer timeline position in 9 argument forms (space "
+    "write-into-result-then-query: and again on the same map object after the caller overwrote each returned array); each "
     "(part after a phase) is one state; non-trivial = at least one compared kind has an element or a default is exercised "
     "on a part with >= 2 positions"
 )
@@ -317,8 +318,10 @@ def _scribble(r):
 
 
 def check_requery(res, part, name, T, exp, nst, ctx):
-    """One map object; every query form is the victim once: its result is overwritten in place, then every position
-    is queried again (scalar and array) on the same object; finally on a map fetched afterwards.
+    """One map object; every query form is the victim once: its result is overwritten in place; after a scalar victim
+    the same position is queried again at once, after a vector victim the array of all positions; after the last scalar
+    victim and after the last vector victim every position is queried again as scalar and in one array on the same
+    object (a write into shared storage stays until it is looked at), finally on a map fetched afterwards.
     -> (calls, number of results that could be written)"""
     where = "Part.%s" % name
     calls = 1
@@ -367,25 +370,65 @@ def check_requery(res, part, name, T, exp, nst, ctx):
         boom(ex, "first queries")
         return calls, written
     mid = n // 2
-    victims = [("scalar t=%d" % t, (lambda t=t: f(t))) for t in T]
-    victims.append(("numpy scalar t=%d" % T[mid], lambda: f(np.int64(T[mid]))))
-    victims.append(("array of all positions", lambda: f(arr.copy())))
-    victims.append(("reversed array", lambda: f(arr[::-1].copy())))
-    victims.append(("list of all positions", lambda: f([int(t) for t in T])))
-    victims.append(("one-element array", lambda: f(np.array([T[mid]], dtype=int))))
-    victims.append(("empty array", lambda: f(np.array([], dtype=int))))
-    for what, call in victims:
+
+    def victim(what, call):
+        """-> number of arrays written, or None after an exception"""
         try:
-            calls += 1
-            w = _scribble(call())
+            return _scribble(call())
         except Exception as ex:  # noqa
             boom(ex, what)
+            return None
+
+    # scalar victims: every position in turn; the same position is asked again at once, all positions after the last one
+    for i, t in enumerate(T):
+        for what, call in (("scalar t=%d" % t, lambda: f(t)), ("numpy scalar t=%d" % t, lambda: f(np.int64(t)))):
+            if what.startswith("numpy") and i != mid:
+                continue
+            calls += 2
+            w = victim(what, call)
+            if w is None:
+                return calls, written
+            written += w
+            try:
+                r = norm_scalar(name, f(t), nst)
+            except Exception as ex:  # noqa
+                boom(ex, "scalar t=%d" % t)
+                return calls, written
+            if r not in want(i, first):
+                res.fail("requery-after-write", expected=want(i, first)[0], observed=r, where=where,
+                         detail="%s same map object after writing into the result of the query %s: scalar query t=%d" % (ctx, what, t))
+                return calls, written
+    c = requery(f, first, "same map object after writing into the results of the scalar queries at every position")
+    if c is None:
+        return calls, written
+    calls += c
+    # vector victims: the array of all positions is asked again after each, every position as scalar after the last one
+    vec = [("array of all positions", lambda: f(arr.copy())),
+           ("reversed array", lambda: f(arr[::-1].copy())),
+           ("list of all positions", lambda: f([int(t) for t in T])),
+           ("one-element array", lambda: f(np.array([T[mid]], dtype=int))),
+           ("empty array", lambda: f(np.array([], dtype=int)))]
+    for what, call in vec:
+        calls += 2
+        w = victim(what, call)
+        if w is None:
             return calls, written
         written += w
-        c = requery(f, first, "same map object after writing into the result of the query %s" % what)
-        if c is None:
+        try:
+            rows = norm_vector(name, f(arr.copy()), n, nst)
+        except Exception as ex:  # noqa
+            boom(ex, "array")
             return calls, written
-        calls += c
+        for i, row in enumerate(rows):
+            if row not in want(i, first):
+                res.fail("requery-after-write", expected=want(i, first)[0], observed=row, where=where,
+                         detail="%s same map object after writing into the result of the query %s: array query, position t=%d"
+                                % (ctx, what, T[i]))
+                return calls, written
+    c = requery(f, first, "same map object after writing into the results of the array and list queries")
+    if c is None:
+        return calls, written
+    calls += c
     try:
         calls += 1
         g = getattr(part, name)
@@ -638,34 +681,41 @@ def spaces(tier, seed):
     sp.append(Space(
         "timeline-beyond-measures",
         _blocked(lambda: itertools.chain(
-                     M.gen_meas_beyond(range(1, 7), (1, 2), ts_bey, 3, (0, 1, 3), leads=(0, 2)),
-                     M.gen_meas_beyond((4, 6), (1,), ts_bey[:3], 3, (1,), numberings=("odd",), tail_kinds=("over", "late"))),
+                     M.gen_meas_beyond(range(2, 6), (1,), ts_bey, 3, (1, 3)),
+                     M.gen_meas_beyond((4, 6), (2,), ts_bey, 3, (2,), tail_kinds=("over", "after")),
+                     M.gen_meas_beyond(range(2, 6), (1,), ts_bey, 2, (0, 2), leads=(1, 2), tail_kinds=("over", "ks")),
+                     M.gen_meas_beyond((4,), (1,), ts_bey[:3], 3, (1,), numberings=("odd",), tail_kinds=("over", "late"))),
                  lambda: itertools.chain(
-                     M.gen_meas_beyond(range(1, 10), (1, 2, 3), ts_wide, 4, (0, 1, 2, 3, 5), leads=(0, 1, 2, 4),
-                                       numberings=("from1", "odd")),
-                     M.gen_meas_beyond((12, 16), (2, 4), ts_wide, 3, (0, 2, 7), leads=(0, 3))), tier, seed, nb=32),
-        bounds="the measures do not span the timeline. core: every tiling of g..g+L (L=1..6) by <=3 measures, quarter duration "
-               "1,2, time signature none / 4/4 3/4 6/8 at 0 / 3/4 starting at the second barline; the timeline goes on d in "
-               "{0,1,3} divisions after the final barline E through one of: a note from the last barline to E+d, a note E..E+d, "
-               "a note E+d-1..E+d, a key signature / clef / 2/4 time signature at E+d; and begins g in {0,2} divisions "
-               "before the first barline through a note 0..g or a key signature at 0 (complete first measure only); (g,d) != (0,0); "
-               "irregular numbering inserted last-to-first for L=4,6; notes at every measure start and one division later; all four "
-               "map families and the note-array columns; thorough: L<=9 with <=4 measures, quarter durations 1,2,3, 11 signature "
-               "options, d in {0,1,2,3,5}, g in {0,1,2,4}, L=12,16" + (" (blocks of 32)" if not thorough else "")))
+                     M.gen_meas_beyond(range(1, 9), (1, 2), ts_wide, 3, (1, 2, 4)),
+                     M.gen_meas_beyond(range(2, 8), (1, 2), ts_core, 3, (0, 1, 3), leads=(1, 3)),
+                     M.gen_meas_beyond((8, 12), (2, 3), ts_core, 3, (3,), numberings=("odd",))), tier, seed, nb=64),
+        bounds="the measures do not span the timeline: it goes on d divisions after the final barline E through one of: a note "
+               "from the last barline to E+d, a note E..E+d, a note E+d-1..E+d (d>=2), a key signature / clef / 2/4 time "
+               "signature at E+d; and/or begins g divisions before the first barline through a note 0..g or a key signature at 0 "
+               "(complete first measure only); (g,d) != (0,0). core: every tiling of 0..L (L=2..5) by <=3 measures, quarter "
+               "duration 1, time signature none / 4/4 3/4 6/8 at 0 / 3/4 starting at the second barline, d in {1,3} x all 6 ways; "
+               "L=4,6 with quarter duration 2, d=2, the two notes; g in {1,2} x d in {0,2} for <=2 measures; irregular numbering "
+               "inserted last-to-first for L=4; notes at every measure start and one division later; time-signature and "
+               "measure maps (+ key / clef map when such an element is present) and the note-array columns; thorough: L=1..8, "
+               "quarter durations 1,2, 11 signature options, d in {1,2,4}; g in {1,3} x d in {0,1,3} for L=2..7; L=8,12 with "
+               "quarter durations 2,3, d=3 and irregular numbering" + (" (blocks of 64)" if not thorough else "")))
     # -- a caller writes into a returned array and asks again
     sp.append(Space(
         "write-into-result-then-query",
-        _blocked(lambda: M.gen_requery(), lambda: M.gen_requery(wide=True), tier, seed, nb=32),
+        _blocked(lambda: M.gen_requery(), lambda: M.gen_requery(wide=True), tier, seed, nb=64),
         bounds="parts: <=2 key signatures (6 values; pairs of 3) / <=2 time signatures (3 values) on every set of positions of 0..3 "
-               "and 1..3, framed by a note or bare; clefs on <=2 staves of 0..2; every tiling of 0..L (L=1..6) by <=3 measures with "
-               "4 signature options and quarter duration 1,2, with key signature and clef, with the timeline going on 2 divisions "
-               "after / beginning 1 before the measures; the 5 + 8 base parts of the in-place and edit spaces. For every compared "
-               "map ONE map object is kept; each query form in turn (int scalar at every position, numpy scalar, array of all "
-               "positions, reversed array, list, one-element array, empty array) is the victim: every array it returned is "
-               "overwritten in place (+37; skipped when numpy marks it read-only), then every position is queried again on the "
-               "same object as scalar and in one array, at the end also on a freshly fetched map; thorough: <=3 signatures of 4 "
-               "values on 0..4 / 2..4, all 46 single key signatures, 3 staves, tilings of L<=8 by <=4 measures, quarter duration 3, "
-               "the whole core of timeline-beyond-measures" + (" (blocks of 32)" if not thorough else "")))
+               "and 1..3, framed by a note or bare; one clef per staff on <=2 staves of 0..2 and <=2 per staff on 0..1; every tiling "
+               "of 0..L (L=1..5) by <=3 measures with 4 signature options, L=6 with quarter duration 2, key signature and clef; "
+               "L=3,4 by <=2 measures with the timeline going on 2 divisions after / beginning 1 before the measures; the 5 + 8 "
+               "base parts of the in-place and edit spaces. For every compared map ONE map object is kept; each query form in "
+               "turn (int scalar at every position, numpy scalar at the middle one, array of all positions, reversed array, list, "
+               "one-element array, empty array) is the victim: every array it returned is overwritten in place (+37; skipped when "
+               "numpy marks it read-only); after a scalar victim the same position is queried again, after a vector victim the "
+               "array of all positions; after the last scalar and after the last vector victim every position is queried again "
+               "as scalar and in one array, at the end also on a freshly fetched map; thorough: <=3 key signatures (all 46 single "
+               "values, pairs of 4, triples of 3) on 0..4 / 2..4, <=2 time signatures of 4 values, <=2 clefs per staff on 0..3, 3 "
+               "staves, tilings of L<=8 by <=4 measures, quarter durations 1,2, L=2..6 with d in {0,1,3}, g in {0,2}"
+               + (" (blocks of 64)" if not thorough else "")))
     # -- edits
     sp.append(Space(
         "edit-then-query",
